@@ -445,9 +445,16 @@ def variance(run, it):
             self.K = K
 
         def _pv_enumerate(self, ex_, start=0):
-            return self
+            if start != 0:
+                raise OutsideSubset("enumerate(adapt_states, start != 0)")
+            outer = self
 
-        def _pv_generic(self, ex_):
+            class EnumView:
+                def _pv_generic(self, ex2):
+                    return outer._pv_generic(ex2, pairs=True)
+            return EnumView()
+
+        def _pv_generic(self, ex_, pairs=False):
             idx = ex_.ctx.ghost["loop_index"]
 
             def cond():
@@ -459,7 +466,8 @@ def variance(run, it):
                 c.assume(nc >= 1)  # precondition: every chain made at least one update in the stage
                 g = c.ghost["G"]
                 c.ghost["G"] = (g[0] + nc, g[1] + nc * mc, g[2] + vc + nc * mc * mc)
-                return (idx, {"iter": nc, "mean": Cell(mc), "sum_diff_sq": Cell(vc)})
+                elem = {"iter": nc, "mean": Cell(mc), "sum_diff_sq": Cell(vc)}
+                return (idx, elem) if pairs else elem
             return cond, bind
 
     def h_finalize(ctx):
